@@ -60,4 +60,12 @@ def solveMonitored (sched : List (St F) → Option (Nat × Nat)) (net : NetD F) 
   let r ← intermediate main monitor excPin
   return (total, r)
 
+/-- `get_monitor`: one pair of columns per reported link, named after the monitor name given to the structure that owns the
+pin on the monitored side and that pin: `<monitor>_<pin>_i` (wave entering the monitored side) and `<monitor>_<pin>_o`
+(wave leaving it); `view` is the identity in amplitude mode and the squared modulus in power mode -/
+def tabulate {G : Type} (monName : Nat → String) (view : F → G) (r : Readout F) : List (String × G) :=
+  (r.links.zip (r.inward.zip r.outward)).flatMap fun e =>
+    let key := monName e.1.2.1 ++ "_" ++ e.1.2.2
+    [(key ++ "_i", view e.2.1), (key ++ "_o", view e.2.2)]
+
 end Monitor
